@@ -191,12 +191,17 @@ class PartProcessor(PartHandler, Maintainable):
         self._shutdown(False, None)
 
     def _shutdown(self, is_failure, lost_part):
+        if is_failure:
+            # Also cancels events that were paused by an earlier shutdown.
+            self._env.cancel_matching_events(asset_id = self.id)
         if self._is_shut_down:
+            if lost_part != None:
+                # Failed while already shut down, report the lost Part.
+                for c in self._shutdown_callbacks:
+                    c(self, is_failure, lost_part)
             return
         self._is_shut_down = True
-        if is_failure:
-            self._env.cancel_matching_events(asset_id = self.id)
-        else:
+        if not is_failure:
             self._env.pause_matching_events(asset_id = self.id)
 
         self._uptime += self.env.now - self._last_restore
